@@ -1255,6 +1255,11 @@ def e2e_modes(chk, env, gen):
                 if ra.startswith('err py') or rh.startswith('err py') or 'fuel' in (ra, rh):
                     skipped += 1          # crashes (uncaught exceptions) are not expansions; not compared
                     break
+                if '#SPACE' in t:
+                    # #SPACE's own text is mode-dependent by design (' ' vs '&#160;'): nested inside an integer
+                    # parameter it parses in one mode and not in the other - not a mode-independence failure
+                    skipped += 1
+                    break
                 chk.violation('asm-html-error-differ:' + macros_of(t), f'{t!r}: ASM mode gives {ra!r}, HTML mode gives {rh!r} (base={base}, case={case})',
                               {'kind': 'modes', 'base': base, 'case': case, 'history': hist})
                 break
